@@ -28,6 +28,13 @@ using namespace vh;
 namespace rt = sqf::runtime;
 namespace op = sqf::opcodes;
 
+// the address-space limit of forked() cannot be combined with AddressSanitizer's shadow memory
+#if defined(__SANITIZE_ADDRESS__)
+static const size_t kMemMb = 0;
+#else
+static const size_t kMemMb = 1024;
+#endif
+
 static rt::value dummy_n(rt::runtime&) { return {}; }
 static rt::value dummy_u(rt::runtime&, rt::value::cref) { return {}; }
 static rt::value dummy_b(rt::runtime&, rt::value::cref, rt::value::cref) { return {}; }
@@ -186,6 +193,7 @@ int main(int argc, char** argv)
             }
             if (mode == "P")
             {
+                if (!vm.rt->parser_sqf().check_syntax(*vm.rt, text, pi)) return "PARSEERROR";
                 std::ostringstream buf;
                 sqf::parser::sqf::formatter fmt(*vm.rt, text, pi);
                 fmt.prettify(fmt.getRes(), 0, buf);
@@ -194,7 +202,7 @@ int main(int argc, char** argv)
                 return "OK\t" + hex(s) + "\t" + (set2.has_value() ? listing(*set2) : std::string("PARSEERROR"));
             }
             return "BADMODE";
-        }, 5000, 1024);
+        }, 5000, kMemMb);
         std::cout << res << "\n";
     }
     return 0;
